@@ -259,7 +259,9 @@ func (k Keeper) deductUnbondingDelegation(ctx context.Context, delAddr sdk.AccAd
 		return math.Int{}, types.ErrNoUnbondingDelegationEntries
 	}
 	removeAmt := math.ZeroInt()
-	for i, u := range ubd.Entries {
+	// removing an entry shifts the following ones down, so the index only advances past an entry that is kept
+	for i := 0; i < len(ubd.Entries); {
+		u := ubd.Entries[i]
 		if u.Balance.LT(tokens) {
 			tokens = tokens.Sub(u.Balance)
 			removeAmt = removeAmt.Add(u.Balance)
